@@ -35,6 +35,36 @@ CLAIMS = {
         "note": TB,
         "technique": "abstract interpretation (loop invariants, obligations) + dominance / reachability queries on the inlined supergraph",
     },
+    "C13": {
+        "category": "other",
+        "text": "On the closure spawned by Worker::receive: remove_file is reachable only on the Err edge of the transfer result, edge-dominated by "
+                "clean_on_error == true, always reached then, and removes exactly the created path; no removal elsewhere; kept partial file is a prefix "
+                "(C02.a/b re-checked); failure causes reach the Err edge (C07.a/b re-checked). The ownership clause (cleanup must not harm the completed "
+                "upload of a later accepted request) is violated by design of the code base: recorded as known finding D6. Concrete crash points are not decided.",
+        "design_ref": "DESIGN.md section 4 C13",
+        "note": TB + " Known finding D6 in known_findings.json (keyed by rule and call site).",
+        "technique": "edge-dominance / reachability on the inlined supergraph of the receive closure + composition of C02/C07 clauses",
+    },
+    "C16": {
+        "category": "other",
+        "text": "The data-phase send helper is a loop over 0..repeat_amount with exactly one send of the same packet per iteration; every DATA/ACK of both "
+                "workers is sent inside it and handshake replies are single sends; repeat_amount = Server.duplicate_packets + 1 at both Worker::new sites; "
+                "Config::new returns Ok only with duplicate_packets in 0..=254 (abstract interpretation of the parser loop); Server::new copies it; the "
+                "tftpd binary builds Config only via Config::new. Completion when both sides duplicate is not decided.",
+        "design_ref": "DESIGN.md section 4 C16",
+        "note": TB + " A-CONFIG.",
+        "technique": "loop-structure and who-may-send queries on the inlined supergraph + abstract interpretation of Config::new",
+    },
+    "C18": {
+        "category": "proof",
+        "text": "Every public Window method is interpreted abstractly on its own under the type invariant len(elements) <= size (fields are private): all "
+                "obligations discharged, invariant re-established at every exit, exact post-conditions of remove/add/empty on the queue length, fill stops "
+                "for good at the first short chunk (ghost eof + re-entry run), observers pure and narrowing lossless, only Window methods touch queue and file. "
+                "Equality of handed-out bytes with the file contents is not decided.",
+        "design_ref": "DESIGN.md section 4 C18",
+        "note": TB + " A-READ; precondition chunk_size <= 2^24 for the public constructor.",
+        "technique": "abstract interpretation of each method under a class invariant (linear inequalities over ghost lengths, Houdini loop invariants, ghost typestate)",
+    },
     "C15": {
         "category": "other",
         "text": "Block numbers are u16 on the wire and in both state machines; every arithmetic operation on a block number is wrapping_* or a checked "
